@@ -72,6 +72,8 @@ def make_signature(rng, present, max_per_kind, force_counts=None, composite=Fals
     def dflt(a, base):
         # defaults need not be hashable: mutable literals are ordinary defaults
         table = {"list[int]": "[]", "dict[str, float]": "{}", "set[fractions.Fraction]": "set()", "tuple[int, ...]": "()", None: rng.choice([base, "[]", "{}", "None"])}
+        if a is not None and rng.random() < 0.25:
+            return "None"  # `x: int = None`: the default is not an annotation, an explicit None is still converted per `int`
         return table.get(a, base) if rng.random() < 0.6 else base
 
     po, pk, va, ko, vk = present
@@ -173,6 +175,14 @@ def call_shapes(rng, params, cap):
         (base_args + tuple(val(p[0]) for p in pk[:1]), {**base_kwargs}) if pk and pk[0][0] in base_kwargs else None,  # duplicate
     ]
     shapes += [r for r in rej if r is not None]
+    # an explicit None for one argument (Python accepts any object): it is converted per the parameter's own annotation
+    for args, kwargs in list(shapes[:6]):
+        if args and rng.random() < 0.5:
+            k_ = rng.randrange(len(args))
+            shapes.append((args[:k_] + (None,) + args[k_ + 1:], dict(kwargs)))
+        elif kwargs:
+            k_ = rng.choice(sorted(kwargs))
+            shapes.append((args, {**kwargs, k_: None}))
     if len(shapes) > cap:
         shapes = rng.sample(shapes, cap)
     return shapes
